@@ -205,6 +205,9 @@ func checkC02(c *Ctx) {
 	c.Rule("C02-R22", "a recognised sequence becomes its event whatever was decoded before it in the same scan: input a parser removes with the answer 'complete' was appended to the event list (two identical reports in one read are two events, as they are in two reads; = C05-R12)")
 	c.Expect("C02-R22", 6)
 	checkConsumedDelivers(c, p, "C02-R22", nil)
+	c.Rule("C02-R23", "with no escape timeout expiring in between: the escape timer is armed only after the scan of what is buffered has returned (armed before, it fires while the scan waits for room in the event queue and then competes with the chunk that completes the sequence)")
+	c.Expect("C02-R23", 1)
+	checkTimerArmedAfterScan(c, p, "C02-R23")
 	c.Rule("C02-R17", "a pending Alt prefix outlives the scan that found it: the flag is a field of the screen, cleared only where it is applied to a key (a scan that ends waiting for more input must not forget it: ESC ESC | [ A is Alt+Up however it is chunked; = C03-R6)")
 	c.Expect("C02-R17", 3)
 	c.asRule("C03-R6", "C02-R17", func() { c03AltPrefix(c, p) })
